@@ -36,6 +36,14 @@ def run_call(spec):
         for name in spec[2]:
             Dialect.get_or_raise(name)
         return "loaded"
+    if kind == "parse_any":
+        try:
+            sqlglot.parse(spec[2], read=spec[3] or None)
+        except Exception as e:
+            return "raised " + type(e).__name__
+        return "parsed"
+    if kind == "poison":
+        return run_poison(spec[2], spec[3])
     if kind == "tokenize":
         return repr([(t.token_type.name, t.text, t.start, t.end) for t in sqlglot.tokenize(spec[2], read=spec[3] or None)])
     if kind == "transpile":
@@ -86,6 +94,105 @@ def run_call(spec):
     if kind == "reuse":
         return run_reuse(spec[2], spec[3], spec[4])
     raise KeyError(kind)
+
+
+KW_SHAPES = ["SELECT {w} FROM t", "SELECT {w} x FROM t", "SELECT {w}(1) FROM t", "SELECT x AS {w} FROM t", "SELECT a FROM {w}"]
+EXTRA: dict = {}   # additional digests a call wants to report (id -> digest)
+
+
+def kw_specs(word, dialects):
+    return [[f"k|{word}|{d}|{j}", "transpile", sh.format(w=word.lower()), d, d] for d in dialects for j, sh in enumerate(KW_SHAPES)]
+
+
+def _table_classes(d):
+    from sqlglot.dialects.dialect import Dialect
+
+    D = Dialect.get_or_raise(d or None)
+    out = []
+    for c in (D.parser_class, D.tokenizer_class, D.generator_class, type(D)):
+        for k in c.__mro__:
+            if k.__module__.startswith("sqlglot") and k not in out:
+                out.append(k)
+    return out
+
+
+def _cheap(c):
+    return {a: (id(v), len(v)) for a, v in vars(c).items() if isinstance(v, (dict, set, frozenset, list, tuple))}
+
+
+def _keys(v):
+    return set(x for x in v if isinstance(x, str)), sum(1 for x in v if not isinstance(x, str))
+
+
+def run_poison(shard, nshards):
+    """A process history made of FAILING inputs: every token prefix and every single-token deletion of the dialect-test
+    statements of this shard, parsed in the statement's own dialect (default error level, so most of them raise in the middle
+    of a parser method), plus the statement itself generated into three targets with unsupported_level=RAISE.
+    After EVERY input the class-level tables (own dict / set / list attributes of the dialect's parser, tokenizer, generator and
+    dialect classes and their sqlglot bases) are compared with what they were before it (identity and size). When one changed,
+    the words that entered or left it are probed at once - in that state - in identifier position (kw_specs) and the digests are
+    reported under '<probe id>@<n>'; the caller compares them with a cold process. A transient leak that a later successful call
+    happens to undo is therefore still seen. The table comparison only chooses WHEN to probe; what is judged is behaviour."""
+    import sqlglot
+    from sqlglot.errors import ErrorLevel
+    from vlib import corpus
+
+    n = 0
+    leads = []
+    snaps: dict = {}
+    detail: dict = {}
+
+    def check(d, text):
+        for c in _table_classes(d):
+            now = _cheap(c)
+            old = snaps.get(c)
+            if old is None:
+                snaps[c] = now
+                detail[c] = {a: _keys(v) for a, v in vars(c).items() if isinstance(v, (dict, set, frozenset, list, tuple))}
+                continue
+            if now != old:
+                for a in set(now) | set(old):
+                    if now.get(a) != old.get(a):
+                        ks, other = _keys(getattr(c, a, ()))
+                        ks0, other0 = detail[c].get(a, (set(), 0))
+                        words = sorted(w for w in ks ^ ks0 if w.replace("_", "").isalnum())
+                        leads.append([c.__name__, a, words[:8], other != other0, d, text[:200]])
+                        for w in words[:8]:
+                            for spec in kw_specs(w, sorted({"", d})):
+                                key = f"{spec[0]}@{shard}:{n}"
+                                try:
+                                    EXTRA[key] = [digest(run_call(spec)), text, d]
+                                except RecursionError:
+                                    EXTRA[key] = ["EXC:RecursionError", text, d]
+                                except Exception as e:
+                                    EXTRA[key] = [f"EXC:{type(e).__name__}:{digest(norm_msg(str(e)))}", text, d]
+                        detail[c][a] = (ks, other)
+                snaps[c] = _cheap(c)
+
+    for i, (d, sql) in enumerate(corpus.dialect_test_sql()):
+        if i % nshards != shard:
+            continue
+        try:
+            toks = sqlglot.tokenize(sql, read=d or None)
+        except Exception:
+            continue
+        check(d, "")
+        texts = [sql[: t.end + 1] for t in toks[:-1]] + [sql[: t.start] + sql[t.end + 1:] for t in toks]
+        for text in texts:
+            n += 1
+            try:
+                sqlglot.parse(text, read=d or None)
+            except Exception:
+                pass
+            check(d, text)
+        for w in ("", "tsql", "bigquery"):
+            try:
+                sqlglot.transpile(sql, read=d or None, write=w or None, unsupported_level=ErrorLevel.RAISE)
+            except Exception:
+                pass
+        check(d, sql)
+    EXTRA[f"leads@{shard}"] = leads
+    return f"poisoned:{n}"
 
 
 def run_reuse(component, dialect, history):
@@ -155,6 +262,7 @@ def main():
             out[spec[0]] = "EXC:RecursionError"
         except Exception as e:
             out[spec[0]] = f"EXC:{type(e).__name__}:{digest(norm_msg(str(e)))}"
+    out.update(EXTRA)
     json.dump(out, open(sys.argv[2], "w"))
 
 
